@@ -1,4 +1,5 @@
 """C19 — dense matrix storage keeps rows aligned and contents intact across operations."""
+from translate import dense_layout
 
 
 def _parse(o):
@@ -46,6 +47,15 @@ def histogram(line):
     f = dict(t.split("=", 1) for t in line.split(" ")[1:] if "=" in t)
     ops = f.get("ops", "").split(";")
     keys = ["T=" + f.get("T", "?"), "C=" + f.get("C", "?"), "len<=%d" % (10 * ((len(ops) + 9) // 10))]
+    if f.get("T") == "f32":
+        ov = f.get("ops", "")
+        if "1101654917120" in ov or "1103802400769" in ov:
+            keys.append("f32:NaN-cell")
+        if "1101659111424" in ov:
+            keys.append("f32:negative-zero-cell")
+    st = f.get("steps", "")
+    if "N" in st or "M" in st:
+        keys.append("steps:nth/nth_back")
     regs = set()
     for o in ops:
         d, name, rest = _parse(o)
@@ -73,6 +83,7 @@ SPEC = dict(
     search_n={"quick": 3000, "thorough": 40000},
     nontrivial=nontrivial,
     histogram=histogram,
+    translate=dense_layout.translate,
     rule="operation sequences on a register file of three DenseMatrix<T,C> (T in u8/u32/f32/i64, C in "
          "1,5,7,16,21,32,43): random ops on any register (new/with_capacity with capacity below, equal to and "
          "above the row count/resize (mostly < 13 rows, 8% up to 40)/reserve/fill/IndexMut by row and by MatrixCoordinates/from_rows/from_rows "
